@@ -250,6 +250,35 @@ func RunWithOptions(src string, oo ...core.Option) (res Result) {
 	return runWith(Single(src), "", oo)
 }
 
+// RunSameObjectTwice creates one JApi, and validates and serialises it twice.
+func RunSameObjectTwice(src string) (first, second Result) {
+	defer func() {
+		if r := recover(); r != nil {
+			first.Panic = PanicSig(r, string(debug.Stack()))
+		}
+	}()
+	j := kit.NewJApiFromFile(fs.NewFile(filepath.Join("/nonexistent-verif", "root.jst"), []byte(src)), core.WithFixedSeedForRegex())
+	pass := func() (res Result) {
+		if je := j.ValidateJAPI(); je != nil {
+			res.Err = errInfo(je, "")
+			return res
+		}
+		res.Accepted = true
+		b, err := j.ToJson()
+		if err != nil {
+			res.ToJSONErr = err.Error()
+		}
+		res.JSON = string(b)
+		bi, _ := j.ToJsonIndent()
+		res.JSONIndent = string(bi)
+		res.Title = j.Title()
+		return res
+	}
+	first = pass()
+	second = pass()
+	return first, second
+}
+
 // FixedSeedOption is the option that makes regex-derived examples repeatable.
 func FixedSeedOption() core.Option { return core.WithFixedSeedForRegex() }
 
